@@ -147,4 +147,25 @@ reg(
     TRUSTED + "Operands |t| <= 100, distances >= 0.1, C05 neighbourhood; non-smooth points of the error (SE2 wrap, 180-degree residual) are skipped and counted.",
 )
 
+reg(
+    "C13",
+    "DESIGN.md section 4 C13",
+    "property-based testing over generated export/import histories (Hypothesis): round-trip oracle on real temporary files, bitwise number comparison, refusal oracle for non-expressible content",
+    "Generated histories of 1..5 export/import cycles from three sources (graphs loaded from grammar-generated text, programmatic graphs with values spanning 1e-300..1e300, "
+    "w<0 quaternions, huge/negative ids, non-diagonal information, registered and unregistered SE3 offsets, and graphs carrying one piece of non-expressible content): "
+    "counts, order, ids, types and all numbers survive bit-identically (SE2 angles congruent, measurement quaternions +-q/|q|), chi2 is preserved, files are stable from "
+    "the second cycle, and non-expressible content is refused (or, if written, loads back equal). Found and repaired defects F3 (e3818be) and F4 (39418f7); also exposes F2.",
+    TRUSTED + "Custom edge types without to_g2o are documented to be skipped on export and are not generated.",
+)
+reg(
+    "C14",
+    "DESIGN.md section 4 C14",
+    "grammar-based generation of .g2o text (Hypothesis) with a differential oracle against the generator's own model of the file; log capture; metamorphic junk-line deletion; loader entry-point differential",
+    "Generated files mixing all 10 tags and two registered custom edge types in any legal order, with exact round-trip number formats and special literals, extreme magnitudes, "
+    "1..4 spaces, LF/CRLF/mixed endings, blank/whitespace lines and near-miss junk lines: exactly one object per recognised line in file order with bit-identical numbers, correct "
+    "symmetric expansion of the triangle, offsets resolved through parameter ids, one warning per unrecognised non-blank line carrying the line, no influence of junk lines, and six "
+    "identical loader entry points.",
+    TRUSTED + "Python float()/int() are the shared text-to-number primitives; only well-formed files are generated (no claim outside the grammar).",
+)
+
 NOT_YET = {}
